@@ -187,6 +187,7 @@ pub fn run(tier: Tier) -> Report {
     let acc = par_chunks_varied(total, 1 << 15, |acc, lo, hi| {
         let px: Vec<[f32; 3]> = (lo..hi).map(|i| [(i / (n * n)) as f32 / d, ((i / n) % n) as f32 / d, (i % n) as f32 / d]).collect();
         check_rgb(acc, lo, &px);
+        crate::img::echo_check(acc, lo, "Hsl::from(LinearRgb)", &px, &|p| to_hsl(p), "c17echo", &json!({"dir":"to_hsl"}));
         crate::img::refine_violations(acc, lo, &px, 1, &|a, it| check_rgb(a, 0, it), &pxs_json);
         if lo == 0 {
             let p = px[px.len() / 2];
@@ -195,6 +196,13 @@ pub fn run(tier: Tier) -> Report {
         }
     });
     rep.acc.merge(acc);
+    for &big in BIG_SIZES.iter() {
+        let px: Vec<[f32; 3]> = (0..big as u64).map(|k| { let i = (k * 7919) % total; [(i / (n * n)) as f32 / d, ((i / n) % n) as f32 / d, (i % n) as f32 / d] }).collect();
+        let mut acc = Acc::default();
+        check_rgb(&mut acc, 0, &px);
+        crate::img::refine_violations(&mut acc, 0, &px, 1, &|a, it| check_rgb(a, 0, it), &pxs_json);
+        rep.acc.merge(acc);
+    }
     // near-grey shells and sextant boundaries at f32 resolution
     let mut shell: Vec<[f32; 3]> = vec![];
     for bi in 0..=64 {
@@ -237,6 +245,16 @@ pub fn run(tier: Tier) -> Report {
         for k in 7..=24 {
             dk.push(2f32.powi(-k));
         }
+        // ... and on through the smallest normals into the subnormals (chroma and lightness that
+        // underflow or overflow when inverted)
+        for k in [30, 40, 60, 80, 100, 110, 120, 122, 123, 124, 125, 126] {
+            dk.push(2f32.powi(-k));
+        }
+        dk.push(1e-37);
+        dk.push(1.5e-37);
+        dk.push(f32::MIN_POSITIVE);
+        dk.push(f32::from_bits(0x0040_0000));
+        dk.push(f32::from_bits(1));
         for &r in &dk {
             for &g in &dk {
                 for &b in &dk {
@@ -283,6 +301,7 @@ pub fn run(tier: Tier) -> Report {
     let acc = par_chunks_varied(nh * ns * ns, 1 << 14, |acc, lo, hi| {
         let px: Vec<[f32; 3]> = (lo..hi).map(|i| [hs[(i / (ns * ns)) as usize], sl[((i / ns) % ns) as usize], sl[(i % ns) as usize]]).collect();
         check_hsl(acc, total + 100_000 + lo, &px);
+        crate::img::echo_check(acc, total + 100_000 + lo, "LinearRgb::from(Hsl)", &px, &|p| from_hsl(p), "c17echo", &json!({"dir":"from_hsl"}));
         crate::img::refine_violations(acc, total + 100_000 + lo, &px, 1, &|a, it| check_hsl(a, 0, it), &pxs_json);
     });
     rep.acc.merge(acc);
@@ -301,6 +320,9 @@ pub fn run(tier: Tier) -> Report {
 }
 
 pub fn replay(case: &Value) -> (bool, String) {
+    if case["kind"] == "c17echo" {
+        return if case["dir"] == "to_hsl" { crate::img::echo_replay(case, &|p| to_hsl(p)) } else { crate::img::echo_replay(case, &|p| from_hsl(p)) };
+    }
     let mut acc = Acc::default();
     if case["kind"] == "c17" {
         let (items, shape) = crate::img::replay_items(case, vec![px3_from(&case["rgb"])], &pxs_from);
